@@ -246,7 +246,7 @@ logfile = %q
 		}
 		switch f[0] {
 		case "H":
-			var body io.Reader
+			var body io.Reader = http.NoBody
 			if len(f) > 3 && f[3] != "-" {
 				b, _ := hex.DecodeString(f[3])
 				body = bytes.NewReader(b)
